@@ -196,6 +196,40 @@ fn cut_cases_i32(em: &mut Emitter, alpha_name: &str, alpha: &[i32], maxlab: usiz
     }
 }
 
+/// 64-bit integer element types at magnitudes where neighbouring integers are NOT distinguishable as f64 (above 2^53, at
+/// the type bounds): the comparisons must be made in the element type, never after a lossy widening to f64
+fn cut_cases_wide(em: &mut Emitter) {
+    let p53: i64 = 1 << 53;
+    let alpha_i: [i64; 9] = [i64::MIN, -p53 - 1, -p53, p53, p53 + 1, p53 + 2, i64::MAX - 3, i64::MAX - 1, i64::MAX];
+    let alpha_u: [u64; 7] = [0, 1, 1 << 53, (1 << 53) + 1, (1 << 53) + 2, u64::MAX - 1, u64::MAX];
+    let vals_i: Vec<i64> = alpha_i.to_vec();
+    let vals_u: Vec<u64> = alpha_u.to_vec();
+    let vi_coq = coq_list(&vals_i, |x| format!("(Some {})", coq_z(*x as i128)));
+    let vu_coq = coq_list(&vals_u, |x| format!("(Some {})", coq_z(*x as i128)));
+    for right in [true, false] {
+        for ab in [true, false] {
+            for edges in subsets(&alpha_i, 3) {
+                let nlab = if ab { edges.len() + 1 } else { edges.len().saturating_sub(1) };
+                let labels: Vec<i32> = (0..nlab as i32).map(|j| 100 + j).collect();
+                let tags = format!("fn=vcut ty=i64 lty=i32 alpha=wide nedges={} nlab={} right={} bounds={} count=match", edges.len(), nlab, right, ab);
+                let desc = format!("fn=vcut ty=i64 labels=i32x{} right={} add_bounds={} edges={:?} values={:?}", nlab, right, ab, edges, vals_i);
+                let e_coq = coq_list(&edges, |x| coq_z(*x as i128));
+                em.case("exact", &tags, &desc, || format!("(run_cut_z64 {} {} false {} {} {})", coq_bool(right), coq_bool(ab), e_coq, coq_nat(nlab), vi_coq),
+                    || cut_impl!(vals_i.clone(), edges.clone(), labels.clone(), right, ab, |l: i32| Cell::Int(l as i128)));
+            }
+            for edges in subsets(&alpha_u, 3) {
+                let nlab = if ab { edges.len() + 1 } else { edges.len().saturating_sub(1) };
+                let labels: Vec<i32> = (0..nlab as i32).map(|j| 100 + j).collect();
+                let tags = format!("fn=vcut ty=u64 lty=i32 alpha=wide nedges={} nlab={} right={} bounds={} count=match", edges.len(), nlab, right, ab);
+                let desc = format!("fn=vcut ty=u64 labels=i32x{} right={} add_bounds={} edges={:?} values={:?}", nlab, right, ab, edges, vals_u);
+                let e_coq = coq_list(&edges, |x| coq_z(*x as i128));
+                em.case("exact", &tags, &desc, || format!("(run_cut_u64 {} {} false {} {} {})", coq_bool(right), coq_bool(ab), e_coq, coq_nat(nlab), vu_coq),
+                    || cut_impl!(vals_u.clone(), edges.clone(), labels.clone(), right, ab, |l: i32| Cell::Int(l as i128)));
+            }
+        }
+    }
+}
+
 fn cut_cases_f64(em: &mut Emitter, alpha_name: &str, alpha: &[f64], maxlab: usize) {
     let mut rng = Rng::new(em.args.seed ^ 0xF64C14);
     let vals = values_f64(alpha, &mut rng, 3);
@@ -478,6 +512,7 @@ fn main() {
     let thorough = em.thorough();
     cut_cases_i32(&mut em, "small", &[-4, -1, 0, 3, 7, 12], 6);
     cut_cases_i32(&mut em, "extreme", &[i32::MIN, i32::MIN + 1, -1, 0, i32::MAX - 1, i32::MAX], 6);
+    cut_cases_wide(&mut em);
     cut_cases_f64(&mut em, "small", &[-2.5, -1.0, 0.0, 0.5, 3.0, 7.25], 6);
     cut_cases_f64(&mut em, "extreme", &[f64::NEG_INFINITY, f64::MIN, -1.0, 1.0, f64::MAX, f64::INFINITY], 6);
     if thorough {
